@@ -3,8 +3,8 @@
    Print Assumptions follows every theorem.   *)
 
 From Coq Require Import List NArith Bool Sorting Permutation.
-From Ice Require Import Base Spec.
-From IceProofs Require Build_Proofs MergeAlgebra_Proofs Sort_Proofs.
+From Ice Require Import Base Spec Chunk Postings Enumerator IntCoder Run MergePostings.
+From IceProofs Require Build_Proofs MergeAlgebra_Proofs Sort_Proofs MergePostings_Proofs.
 Import ListNotations.
 Open Scope N_scope.
 
@@ -12,14 +12,14 @@ Open Scope N_scope.
 Theorem build_stats_known :
     forall (norm : bytes -> N -> N) (b : Batch) (f : bytes),
     In f (o_fields (abs_of_batch norm b)) -> o_stats (abs_of_batch norm b) f = (lenN b, built_stats b f).
-Proof. exact Build_Proofs.build_stats_known. Qed.
+Proof. exact @Build_Proofs.build_stats_known. Qed.
 Print Assumptions build_stats_known.
 
 (* all zero for unknown fields *)
 Theorem build_stats_unknown :
     forall (norm : bytes -> N -> N) (b : Batch) (f : bytes),
     ~ In f (o_fields (abs_of_batch norm b)) -> o_stats (abs_of_batch norm b) f = (0, (0, 0)).
-Proof. exact Build_Proofs.build_stats_unknown. Qed.
+Proof. exact @Build_Proofs.build_stats_unknown. Qed.
 Print Assumptions build_stats_unknown.
 
 (* when field length = sum of term frequencies, the built total equals the total of the postings' frequencies (the merged flavour) *)
@@ -27,14 +27,14 @@ Theorem build_stats_flavours_agree :
     forall (norm : bytes -> N -> N) (b : Batch) (f : bytes),
     Build_Proofs.lengths_are_freqs b ->
     snd (built_stats b f) = snd (merged_stats (as_docs (abs_of_batch norm b)) f).
-Proof. exact Build_Proofs.build_stats_flavours_agree. Qed.
+Proof. exact @Build_Proofs.build_stats_flavours_agree. Qed.
 Print Assumptions build_stats_flavours_agree.
 
 Theorem roll_up_total_freq :
     forall (fname : bytes) (insts : list Field),
     sumN (map (fun at_ : bytes * (N * list ALoc) => fst (snd at_)) (roll_up fname insts)) =
     sumN (map t_freq (flat_map' f_terms insts)).
-Proof. exact Build_Proofs.roll_up_total_freq. Qed.
+Proof. exact @Build_Proofs.roll_up_total_freq. Qed.
 Print Assumptions roll_up_total_freq.
 
 (* merged statistics add component-wise over the surviving documents *)
@@ -43,12 +43,34 @@ Theorem merge_stats_additive :
     merged_stats (docs1 ++ docs2) f =
     (fst (merged_stats docs1 f) + fst (merged_stats docs2 f),
     snd (merged_stats docs1 f) + snd (merged_stats docs2 f)).
-Proof. exact MergeAlgebra_Proofs.merge_stats_additive. Qed.
+Proof. exact @MergeAlgebra_Proofs.merge_stats_additive. Qed.
 Print Assumptions merge_stats_additive.
 
 (* statistics of a merged segment survive a further single-segment merge *)
 Theorem merge_identity_merged :
     forall ins : list (ASeg * list N),
     fst (merge_spec [(fst (merge_spec ins), [])]) = fst (merge_spec ins).
-Proof. exact MergeAlgebra_Proofs.merge_identity_merged. Qed.
+Proof. exact @MergeAlgebra_Proofs.merge_identity_merged. Qed.
 Print Assumptions merge_identity_merged.
+
+(* the merger model's field statistics (documents with at least one term, sum of the surviving postings' frequencies) are those of the specification *)
+Theorem merge_field_stats :
+    forall (cm : N) (f : bytes) (insE : list MergePostings_Proofs.InE) (foc : ASeg -> bool),
+    (forall (A : ASeg) (dr : list N) (e : bytes -> EncPL),
+    In (A, dr, e) insE ->
+    MergePostings_Proofs.wf_seg A /\
+    (forall t : bytes, In t (o_terms A f) -> MergePostings_Proofs.admissible_enc A f t (e t))) ->
+    (forall (A : ASeg) (dr : list N) (e : bytes -> EncPL),
+    In (A, dr, e) insE -> foc A = false -> known_field A f = false) ->
+    In f (as_fields (fst (merge_spec (MergePostings_Proofs.ins_of insE)))) ->
+    valid_mode cm = true ->
+    0 < o_count (fst (merge_spec (MergePostings_Proofs.ins_of insE))) ->
+    o_count (fst (merge_spec (MergePostings_Proofs.ins_of insE))) < two32 ->
+    forall r : FieldResult,
+    merge_field cm (o_count (fst (merge_spec (MergePostings_Proofs.ins_of insE))))
+    (as_fields (fst (merge_spec (MergePostings_Proofs.ins_of insE))))
+    (MergePostings_Proofs.merge_acts f insE foc) = Ok r ->
+    fr_docs r = fst (merged_stats (as_docs (fst (merge_spec (MergePostings_Proofs.ins_of insE)))) f) /\
+    fr_freqs r = snd (merged_stats (as_docs (fst (merge_spec (MergePostings_Proofs.ins_of insE)))) f).
+Proof. exact @MergePostings_Proofs.merge_field_stats. Qed.
+Print Assumptions merge_field_stats.
